@@ -36,6 +36,7 @@ struct ApiOpts {
 	bool junkWeights = false;        // SetShapeBoneWeights also receives entries that are no weights (NaN, negative, zero, below the 1e-4 cut): the setter has to drop them
 	bool portedTangentBlock = false; // non-Oblivion versions: shapes carry an Oblivion-style "Tangent space (binormal & tangent vectors)" NiBinaryExtraData (meshes ported from Oblivion keep it)
 	bool collisionVolumes = false;   // every shape gets a NiCollisionData with a bounding volume of a rotating kind (sphere, box, capsule, half-space, union of two)
+	bool wideColors = false;         // vertex colour channels outside [0,1] as well (floats in LE files are not range checked; byte storage clamps)
 	bool tangents = false;           // CalcTangentsForShape on every shape that has normals and UVs (OB: creates the tangent-space extra data on save)
 	bool texturing = false;          // OB/FO3: shapes also get a NiTexturingProperty with source textures in a random subset of the ten slots
 	bool modelSpace = false;         // SK/SSE: shaders use model-space normals (cloning / conversion drop normals and tangents then)
